@@ -330,6 +330,18 @@ func e2eRefusals(c *e2eCtx) error {
 			return true
 		}, false, true},
 		{"valid-track", []string{"track"}, func(s *scenario, r *rand.Rand) bool { return true }, false, true},
+		{"valid-track-alias-equals-an-imported-package-name", []string{"track"}, func(s *scenario, r *rand.Rand) bool {
+			// the alias of the tracking package is the name of a library that a main package imports:
+			// whether goat copes with the clash or not, it must not find out after it has written
+			for _, pk := range s.p.Pkgs {
+				if pk.IsMain && len(pk.Imports) > 0 {
+					name := s.p.Pkgs[pk.Imports[0]].Name
+					writeCfg(s, func(c *proj.Config) { c.Alias = name })
+					return true
+				}
+			}
+			return false
+		}, false, true},
 		{"valid-patch-after-delete-marker", []string{"patch"}, func(s *scenario, r *rand.Rand) bool {
 			if run := proj.RunGoat(c.goat, s.dir, nil, "track"); run.Exit != 0 {
 				return false
